@@ -8,7 +8,7 @@ from ..cfg import cfg_of
 from ..interp import Interp, Unsupported, fresh
 from ..loader import AnalysisError, norm_text
 from ..terms import K, S, T_mul, T_sub, T_sum, alpha_norm, show_norm, subst, subterms
-from .common import Context, calls_in
+from .common import Context, backing_attr, calls_in
 from .solverterms import brief, same
 
 PROP = "C17"
@@ -41,7 +41,7 @@ def run(ctx: Context, col) -> None:
     SS, AS, ES = S("problem.state_space"), S("problem.action_space"), S("problem.random_event_space")
     nS, nA, nE = ("app", "len", (SS,)), ("app", "len", (AS,)), ("app", "len", (ES,))
     I = Interp(ctx.ct, cls, {
-        "_state_space": SS, "_action_space": AS, "_random_event_space": ES,
+        backing_attr(ctx, cls, "state_space"): SS, backing_attr(ctx, cls, "action_space"): AS, backing_attr(ctx, cls, "random_event_space"): ES,
         "transition": ("leaf", "problem.transition"),
         "random_event_probability": ("leaf", "problem.random_event_probability"),
         "state_to_index": ("leaf", "problem.state_to_index"),
